@@ -273,6 +273,8 @@ impl Property for C14 {
             let positions: Vec<u64> = (0..24).map(|_| src.below(1 << 20)).collect();
             let bits: Vec<u8> = (0..24).map(|_| src.below(8) as u8).collect();
             let seed2 = src.u64_any();
+            let reached2 = std::sync::Arc::new(std::sync::atomic::AtomicU64::new(0));
+            let reached2c = reached2.clone();
             let found: Option<String> = crate::simkit::rt::block_on(seed2, async move {
                 let clock = crate::simkit::clock::SimClock::new(1_700_000_000_000);
                 let base = SimStore::new(); base.set_record(false);
@@ -297,9 +299,34 @@ impl Property for C14 {
                         }
                     }
                 }
+                // the same, met by a compactor that has been running for a while: its first round wrote the segment that is
+                // damaged afterwards, a later flush adds a segment, and its second round reads its own output back
+                for (pos, bit) in positions.iter().zip(bits.iter()).take(10) {
+                    let st = SimStore::from_objects(&objs); st.set_record(false);
+                    let ccfg = CompactionConfig { target_segment_size: 1 << 20, max_segments: 1, min_segments_to_compact: 2, max_segments_per_compaction: 10, tombstone_ttl: std::time::Duration::from_secs(3600), compression_enabled: false };
+                    let mut c = Compactor::with_time_source(Arc::new(st.clone()), "data".to_string(), ManifestManager::new(st.clone(), "data"), ccfg, clock.clone());
+                    if c.compact().await.is_err() { continue; }
+                    let mut w2 = written.clone();
+                    let mut p2 = match StreamingPersistence::with_clock(Arc::new(st.clone()), "data".to_string(), 1, WriteBufferConfig { flush_interval: std::time::Duration::from_millis(50), max_size_bytes: 1 << 20, max_deltas: 1000, backpressure_threshold_bytes: 1 << 22, compression_enabled: false }, clock.clone()).await { Ok(p) => p, Err(_) => continue };
+                    for i in 0..3u64 { let (k, v) = (format!("cz9-{}", i), format!("payload-of-9-{}", i)); w2.insert((k.clone(), v.clone())); let _ = p2.push(ReplicationDelta::new(k, ReplicatedValue::with_value(SDS::from_str(&v), LamportClock { time: 100 + i, replica_id: rid }), rid)); }
+                    if p2.flush().await.is_err() { continue; }
+                    let segs: Vec<String> = st.inner.lock().unwrap().objs.keys().filter(|k| k.contains("/segments/")).cloned().collect();
+                    // the compactor's own output is the segment that was not there before its first round and is not p2's newest
+                    let Some(own) = segs.iter().find(|k| !objs.contains_key(*k) && { let b = &st.inner.lock().unwrap().objs[*k]; String::from_utf8_lossy(b).contains("payload-of-0-0") }).cloned() else { continue };
+                    { let mut g = st.inner.lock().unwrap(); let b = g.objs.get_mut(&own).unwrap(); let at = (*pos as usize) % b.len(); b[at] ^= 1 << bit; }
+                    let _ = c.compact().await;
+                    reached2c.fetch_add(1, std::sync::atomic::Ordering::Relaxed);
+                    if let Ok(rec) = RecoveryManager::new(st.clone(), "data", 1).recover().await {
+                        for d in &rec.deltas {
+                            let got = (d.key.clone(), d.value.get().map(|s| String::from_utf8_lossy(s.as_bytes()).into_owned()).unwrap_or_default());
+                            if !w2.contains(&got) { return Some(format!("a long-lived Compactor compacts, a flush adds a segment, bit {} of byte {} of the compactor's own output {} flips at rest, the same Compactor compacts again, then RecoveryManager::recover(): recovery succeeds and returns {:?} = {:?}, which was never written", bit, (*pos as usize), own, got.0, got.1)); }
+                        }
+                    }
+                }
                 None
             });
             rep.probe("damaged_segment_met_by_the_compactor");
+            rep.probe_n("compactor_met_its_own_damaged_output_in_a_later_round", reached2.load(std::sync::atomic::Ordering::Relaxed));
             rep.evals += 24;
             for _ in 0..24 { rep.fault("image_bit_flipped"); }
             if let Some(m) = found { rep.violate("C14/damage-decoded-as-different-data/segment-through-compaction", m); }
